@@ -918,3 +918,49 @@ package gohlslib
 //@ func clientTrackProcessorFMP4.decodePayload
 //@   like clientTrackProcessorFMP4.initialize$1
 //@ end
+
+//@ func clientStreamDownloader.downloadSegment
+//@   props C11 C13
+//@   nosafety
+//@   noframe
+//@   nocallpre
+//@   requires d.playlistURL != nil && d.httpClient != nil && d.onDownloadSegment != nil && d.onRequest != nil && ctx != nil
+//@   ensures length == nil ==> calls("http.Header.Add") == 0
+//@   ensures (length != nil && calls("http.Client.Do") == 1) ==> calls("http.Header.Add") == 1
+//@   ensures (length != nil && calls("http.Client.Do") == 1) ==> callarg("http.Header.Add", 0, 1) == "Range"
+//@   ensures (length != nil && calls("http.Client.Do") == 1) ==> callarg("http.Header.Add", 0, 2) == "bytes=" + strconv.FormatUint(ite(start == nil, 0, *start), 10) + "-" + strconv.FormatUint(uint64(ite(start == nil, 0, *start) + *length - 1), 10)
+//@   ensures calls("http.Client.Do") <= 1
+//@ end
+
+// the next segment to fetch is decided exactly as the property says
+//@ func clientStreamDownloader.fillSegmentQueue
+//@   props C11 C13
+//@   nocallpre
+//@   requires d.firstPlaylist != nil && pl != nil && d.segmentQueue != nil && ctx != nil
+//@   requires forall(i, (0 <= i && i < len(pl.Segments)) ==> pl.Segments[i] != nil)
+//@   requires pl.MediaSequence >= 0 && pl.MediaSequence < 2147483648 && (d.curSegmentID != nil ==> (*d.curSegmentID >= 0 && *d.curSegmentID < 4611686018427387904))
+//@   modifies d.curSegmentID, clientSegmentQueue.queue, clientSegmentQueue.didPush
+//@   ensures calls("clientStreamDownloader.downloadSegment") <= 1
+//@   ensures (old(d.curSegmentID) == nil && isVOD(d.firstPlaylist) && len(pl.Segments) >= 1) ==> (calls("clientStreamDownloader.downloadSegment") == 1
+//@        && callarg("clientStreamDownloader.downloadSegment", 0, 2) == pl.Segments[0].URI && *d.curSegmentID == pl.MediaSequence)
+//@   ensures (old(d.curSegmentID) == nil && !isVOD(d.firstPlaylist) && len(pl.Segments) >= 3) ==> (calls("clientStreamDownloader.downloadSegment") == 1
+//@        && callarg("clientStreamDownloader.downloadSegment", 0, 2) == pl.Segments[len(pl.Segments) - 3].URI && *d.curSegmentID == pl.MediaSequence + len(pl.Segments) - 3)
+//@   ensures (old(d.curSegmentID) == nil && ((isVOD(d.firstPlaylist) && len(pl.Segments) == 0) || (!isVOD(d.firstPlaylist) && len(pl.Segments) < 3))) ==>
+//@        (result != nil && calls("clientStreamDownloader.downloadSegment") == 0 && d.curSegmentID == nil)
+//@   ensures old(d.curSegmentID) != nil ==> (calls("clientStreamDownloader.downloadSegment") == 1) ==
+//@        (0 <= nextIdx(d, pl) && nextIdx(d, pl) < len(pl.Segments) && (pl.Endlist || len(pl.Segments) - nextIdx(d, pl) <= 5))
+//@   ensures (old(d.curSegmentID) != nil && calls("clientStreamDownloader.downloadSegment") == 1) ==>
+//@        (callarg("clientStreamDownloader.downloadSegment", 0, 2) == pl.Segments[nextIdx(d, pl)].URI && *d.curSegmentID == old(*d.curSegmentID) + 1)
+//@   ensures (old(d.curSegmentID) != nil && calls("clientStreamDownloader.downloadSegment") == 0) ==> (result != nil && d.curSegmentID == old(d.curSegmentID) && *d.curSegmentID == old(*d.curSegmentID))
+//@   ensures calls("clientStreamDownloader.downloadSegment") == 0 ==> calls("clientSegmentQueue.push") == 0
+//@   ensures result == nil ==> calls("clientSegmentQueue.push") == 1
+//@ end
+
+//@ pred isVOD(pl *playlist.Media) := pl.PlaylistType != nil && *pl.PlaylistType == "VOD"
+//@ pred nextIdx(d *clientStreamDownloader, pl *playlist.Media) int := old(*d.curSegmentID) + 1 - pl.MediaSequence
+
+// variant selection: every codec string the muxer side can advertise is accepted
+//@ func checkSupport
+//@   props C09 C13
+//@   loop 1 invariant ri < len(codecs)
+//@ end
